@@ -35,16 +35,13 @@ const L_: u32 = 40;
 /// square-decomposition witnesses of Boudot's proof for a value x in [a, b]
 /// public quantities (T, aa, bb) of Boudot's proof with tolerance for the interval [a, b]
 pub fn boudot_public(a: &Integer, b: &Integer) -> (u32, Integer, Integer) {
+    // after the F15 fix the scaled interval carries no offsets: [2^T a, 2^T b]
     let t = 2 * (T_ + L_ + 1) + Integer::from(b - a).significant_bits();
-    let s = Integer::from(2).pow(L_ + T_ + t / 2 + 1) * Integer::from(b - a).sqrt();
-    (t, Integer::from(2).pow(t) * a - &s, Integer::from(2).pow(t) * b + &s)
+    (t, Integer::from(2).pow(t) * a, Integer::from(2).pow(t) * b)
 }
 
 pub fn boudot_witnesses(tag: &str, x: &Integer, a: &Integer, b: &Integer) -> Vec<(String, Integer)> {
-    let t = 2 * (T_ + L_ + 1) + Integer::from(b - a).significant_bits();
-    let s = Integer::from(2).pow(L_ + T_ + t / 2 + 1) * Integer::from(b - a).sqrt();
-    let aa = Integer::from(2).pow(t) * a - &s;
-    let bb = Integer::from(2).pow(t) * b + &s;
+    let (t, aa, bb) = boudot_public(a, b);
     let xp = Integer::from(2).pow(t) * x;
     let xa = Integer::from(&xp - &aa);
     let xb = Integer::from(&bb - &xp);
